@@ -12,7 +12,8 @@ Extracted (regex over the source text, constants resolved through XalanUnicode.h
   * the bulk entry write(const value_type*, size_type) of XalanUTF8Writer / XalanUTF16Writer, token by token: the three
     regimes (longer than the buffer: [flushBuffer();] direct m_writer.write; else flush when it does not fit, copy) -
     whether flushBuffer() precedes the direct write is emitted as bulkFlushUTF8 / bulkFlushUTF16; flushBuffer() itself;
-    XalanOtherEncodingWriter::write(const XalanDOMChar*, size_type) must be the unit-by-unit loop (no bulk path);
+    XalanOtherEncodingWriter::write(const XalanDOMChar*, size_type): the unit-by-unit loop or the loop over the positional
+    write with the character-reference functor (otherBulkPairAware); no direct path to the stream in either form;
     XalanOutputStream::write(const XalanDOMChar*, size_type): flush when the run does not fit, direct write only with an
     empty buffer (bulkFlushStream); XalanOutputStream::flushBuffer(bool) token by token, its hold-back condition term
     by term (streamHoldBack), isLeadingSurrogate (isLeadUnit)
@@ -192,8 +193,14 @@ def main():
     # XalanOtherEncodingWriter has no bulk path: write(const XalanDOMChar*, size_type) goes unit by unit
     oth = strip_comments(read("XMLSupport/XalanOtherEncodingWriter.hpp"))
     m = re.search(r"void\s+write\s*\(\s*const\s+XalanDOMChar\s*\*\s*theChars\s*,\s*size_type\s+theLength\s*\)\s*\{(.*?)\n    \}\n", oth, re.S)
-    if not m or re.sub(r"\s+", "", m.group(1)) != "for(size_typei=0;i<theLength;++i){write(theChars[i]);}":
-        die("XalanOtherEncodingWriter::write(const XalanDOMChar*, size_type) is not the unit-by-unit loop")
+    ob = re.sub(r"\s+", "", m.group(1)) if m else ""
+    if ob == "for(size_typei=0;i<theLength;++i){write(theChars[i]);}":
+        other_bulk_pair_aware = False          # each UTF-16 unit by itself: a pair becomes two failure-handler references
+    elif ob == "for(size_typei=0;i<theLength;++i){i=write(theChars,i,theLength,m_charRefFunctor);}":
+        other_bulk_pair_aware = True           # the positional write decodes the pair first
+    else:
+        die("XalanOtherEncodingWriter::write(const XalanDOMChar*, size_type) is neither the unit-by-unit loop nor the "
+            "loop over the positional write: " + ob[:200])
     if not re.search(r"flushBuffer\s*\(\s*\)\s*\{\s*m_writer\.write\s*\(\s*m_buffer\s*,\s*0\s*,\s*m_bufferPosition\s*-\s*m_buffer\s*\)\s*;\s*"
                      r"m_bufferPosition\s*=\s*m_buffer\s*;\s*m_bufferRemaining\s*=\s*kBufferSize\s*;\s*\}", oth):
         die("XalanOtherEncodingWriter::flushBuffer has an unexpected form")
@@ -397,6 +404,8 @@ def main():
     else:
         die("writeNormalizedChar: the write call has an unexpected form")
     n_check = len(re.findall(r"\bthrowIfNotACharacter\s*\(\s*(?:ch|theChar)\s*\)\s*;", uni_hpp))
+    if re.search(r"\bvoid\s+throwIfNotCharacters\s*\(", uni_hpp):
+        n_check -= 1          # the call inside throwIfNotCharacters (r8; its own shape is checked below)
     if n_check == 0:
         fix_reject = False
     elif n_check == 3 and re.search(
@@ -416,6 +425,24 @@ def main():
         die("writeCDATAChars: CR/NEL handling has an unexpected form")
     else:
         fix_cdata_ref = False
+    # r8: throwIfNotCharacters in front of the bulk writes (writeName, charactersRaw, writeDoctypeDecl)
+    has_def = re.search(r"void\s+throwIfNotCharacters\s*\(\s*const\s+XalanDOMChar\s*\*\s*chars\s*,\s*size_type\s+length\s*\)\s*\{(.*?)\n    \}\n", uni_hpp, re.S)
+    n_calls = len(re.findall(r"\bthrowIfNotCharacters\s*\(", uni_hpp)) - (1 if has_def else 0)
+    if not has_def and n_calls == 0:
+        fix_bulk_check = False
+    elif has_def:
+        body_c = re.sub(r"\s+", " ", has_def.group(1)).strip()
+        want = ("for (size_type i = 0; i < length; ++i) { const XalanDOMChar ch = chars[i]; if (isUTF16HighSurrogate(ch) == true) { "
+                "if (i + 1 >= length || isUTF16LowSurrogate(chars[i + 1]) == false) { throwInvalidUTF16SurrogateException( ch, "
+                "i + 1 >= length ? XalanDOMChar(0) : chars[i + 1], getMemoryManager()); } ++i; } else { throwIfNotACharacter(ch); } }")
+        sites = [r"writeName\s*\(\s*const\s+XalanDOMChar\s*\*\s*theChars\s*\)\s*\{\s*assert\s*\([^;]*;\s*throwIfNotCharacters\s*\(\s*theChars\s*,\s*length\s*\(\s*theChars\s*\)\s*\)\s*;\s*m_writer\.writeNameChar",
+                 r"charactersRaw\s*\([^)]*\)\s*\{\s*throwIfNotCharacters\s*\(\s*chars\s*,\s*length\s*\)\s*;\s*writeParentTagEnd",
+                 r"writeDoctypeDecl\s*\(\s*const\s+XalanDOMChar\s*\*\s*name\s*\)\s*\{\s*throwIfNotCharacters\s*\(\s*name\s*,\s*length\s*\(\s*name\s*\)\s*\)\s*;"]
+        if body_c != want or n_calls != 3 or not all(re.search(x, uni_hpp) for x in sites) or not fix_reject:
+            die("throwIfNotCharacters: unexpected definition or call sites (%d calls): %s" % (n_calls, body_c[:300]))
+        fix_bulk_check = True
+    else:
+        die("throwIfNotCharacters is called but not defined")
     u16 = strip_comments(read("XMLSupport/XalanUTF16Writer.hpp"))
     m = re.search(r"size_type\s+write\s*\(\s*const\s+value_type\s+chars\[\]\s*,\s*size_type\s+start\s*,\s*size_type\s*(?:/\*length\*/|length)?\s*\)\s*\{(.*?)\n    \}\n", u16, re.S)
     if not m:
@@ -466,6 +493,8 @@ def main():
     L.append("def bulkFlushUTF16 : Bool := %s" % ("true" if bulk_flush["utf16"] else "false"))
     L.append("/-- `XalanOutputStream::write(const XalanDOMChar*, n)` writes a long run directly only when its buffer is empty -/")
     L.append("def bulkFlushStream : Bool := %s" % ("true" if bulk_flush["stream"] else "false"))
+    L.append("/-- `XalanOtherEncodingWriter::write(const XalanDOMChar*, n)` goes through the positional write (a surrogate pair is one character) -/")
+    L.append("def otherBulkPairAware : Bool := %s" % ("true" if other_bulk_pair_aware else "false"))
     L.append("/-- `XalanOutputStream::isLeadingSurrogate` -/")
     L.append("def isLeadUnit (u : Nat) : Bool := decide (%d ≤ u) && decide (u ≤ %d)" % (lead_lo, lead_hi))
     L.append("/-- `fHoldBack` of `XalanOutputStream::flushBuffer(bool)`, term by term as written -/")
@@ -499,6 +528,7 @@ def main():
     L.append("def fixCdataRef : Bool := %s" % ("true" if fix_cdata_ref else "false"))
     L.append("def fixRejectNonChar : Bool := %s" % ("true" if fix_reject else "false"))
     L.append("def fixUtf16Pairs : Bool := %s" % ("true" if fix_utf16_pairs else "false"))
+    L.append("def fixBulkCheck : Bool := %s" % ("true" if fix_bulk_check else "false"))
     L.append("")
     L.append("end XalanModel.Generated.C04")
     txt = "\n".join(L) + "\n"
